@@ -431,6 +431,19 @@ def bookkeeping(r, F):
                 here = {f for (f, m, g, b) in ops if g is rem and b in reach and m == "remove_from_ptr"}
                 r.require(here == {tagmap[v]}, rem, "%s remove: tag %s -> %s" % (name, v, tagmap[v]), "the arm of tag %s unlinks from %s" % (v, tagmap[v]),
                           "%s::remove unlinks a record tagged %s from %s: remove_from_ptr on a list that does not hold the record corrupts both lists" % (name, v, sorted(here)), ln=rem.lo)
+    # --- LRU clear also drains the pin list (held entries): each of them is unflagged too
+    LR = EV + "::lru::Lru"
+    clr = F.method(LR, "clear", "Eviction")
+    pins = [b for (f_, m, g, b) in list_ops(F, clr, LR) if f_ == "pin_list" and m == "pop_front" and g is clr]
+    sf = [b.idx for b in clr.calls_to(SETF) if b.term.args[1].const_val() == 0]
+    ok = bool(pins) and bool(sf) and bool(clr.calls_to(r"Lru::<K, V, P> as .*Eviction>::pop$|eviction::Eviction::pop$|::pop$"))
+    for pb in pins:
+        for (sb, pl, tm, other) in tables.variant_switch_on(clr, pb):
+            if "Some" in tm:
+                reach = clr.reachable([tm["Some"]], avoid=sf)
+                ok = ok and not (set(clr.returns() + [pb]) & reach)
+    r.require(ok, clr, "Lru clear: pinned records are unflagged", "every record popped from the pin list gets in-eviction := false before the next one; unpinned ones go through pop()",
+              "Lru::clear leaves pinned (held) records flagged in-eviction after unlinking them: when their handle is released the release operator re-links a record that no longer belongs to the cache", ln=clr.lo)
     # --- S3-FIFO: lookups raise the frequency; accessors touch the frequency cell; resize reaches the ghost queue and the small share
     S3, ST = EV + "::s3fifo::S3Fifo", EV + "::s3fifo::S3FifoState"
     acq = F.method(S3, "acquire", "Eviction")
